@@ -7,6 +7,7 @@ import Cas.Real
 import Gen.Series
 import Lib.RotExp
 import Lib.ExpForms
+import Lib.Flow
 
 open Gen RotExp Rot
 
@@ -123,4 +124,31 @@ theorem x_over_sin_x_closed {x : ℝ} (hx : eps ≤ |x|) : Series.x_over_sin_x x
   simp only [cas_series, cas_real]
   rw [if_neg hn]
 
+end SeriesLemmas
+
+namespace SeriesLemmas
+open Gen
+
+theorem sq_half_x2_plus_cos_minus_one_over_x4_closed {u : ℝ} (hu : eps ≤ u) :
+    SqSeries.half_x2_plus_cos_minus_one_over_x4 u = Flow.eFun (Real.sqrt u) := by
+  have hpos : 0 < u := lt_of_lt_of_le eps_pos hu
+  have hn : ¬ |u| < 1152921504606847 * (2:ℝ) ^ (-60:ℤ) := by
+    rw [abs_of_pos hpos]; unfold eps at hu; linarith
+  have hs : Real.sqrt u ^ 2 = u := Real.sq_sqrt hpos.le
+  simp only [cas_series, cas_real]
+  rw [if_neg hn]
+  unfold Flow.eFun
+  have h4 : Real.sqrt u ^ 4 = u * u := by rw [show (4:ℕ) = 2 + 2 by rfl, pow_add, hs]
+  rw [h4, hs]
+  norm_num
+  ring
+
+end SeriesLemmas
+
+namespace SeriesLemmas
+theorem sqrt_quarter (u : ℝ) : Real.sqrt (u / 4) = Real.sqrt u / 2 := by
+  rw [Real.sqrt_div' u (by norm_num : (0:ℝ) ≤ 4)]
+  have : Real.sqrt 4 = 2 := by
+    rw [show (4:ℝ) = 2 ^ 2 by norm_num]; exact Real.sqrt_sq (by norm_num)
+  rw [this]
 end SeriesLemmas
